@@ -162,7 +162,12 @@ impl MetaStore {
         partition: PartitionID,
         column_name: &str,
     ) -> bool {
-        self.partitions[table_name][&partition].subpartition_has_been_loaded(column_name)
+        // A partition that is not (or no longer) registered has no subpartition left to load:
+        // it is either still fully resident or has been compacted away.
+        match self.partitions.get(table_name).and_then(|p| p.get(&partition)) {
+            Some(partition) => partition.subpartition_has_been_loaded(column_name),
+            None => true,
+        }
     }
 
     pub fn mark_subpartition_as_loaded(
@@ -171,7 +176,9 @@ impl MetaStore {
         partition: PartitionID,
         column_name: &str,
     ) {
-        self.partitions[table_name][&partition].mark_subpartition_as_loaded(column_name);
+        if let Some(partition) = self.partitions.get(table_name).and_then(|p| p.get(&partition)) {
+            partition.mark_subpartition_as_loaded(column_name);
+        }
     }
 
     pub fn add_wal_segment(&mut self) -> u64 {
